@@ -175,7 +175,7 @@ func (g *scenGen) assets() {
 		g.channels = append(g.channels, M{"uuid": UUID4(r), "name": "Shortcode", "address": "2020", "schemes": []string{"tel"}, "roles": []string{"receive"}, "country": "RW"})
 	}
 	if r.Chance(0.35) {
-		g.channels = append(g.channels, M{"uuid": UUID4(r), "name": "Bulk", "address": "+250788000000", "schemes": []string{"tel"}, "roles": []string{"send"}, "country": "RW", "match_prefixes": []string{"+25078", "+1206"}})
+		g.channels = append(g.channels, M{"uuid": UUID4(r), "name": "Bulk", "address": "+250788000000", "schemes": []string{"tel"}, "roles": []string{"send"}, "country": "RW", "match_prefixes": []string{"+25078", "+120", "+121"}})
 	}
 	if r.Chance(0.15) {
 		g.channels = append(g.channels, M{"uuid": UUID4(r), "name": "Local Only", "address": "+12065550000", "schemes": []string{"tel"}, "roles": []string{"send", "receive"}, "country": "US", "allow_international": false})
